@@ -18,8 +18,11 @@ package gomatrixserverlib
 import (
 	"encoding/json"
 	"fmt"
+	"unicode/utf16"
+	"unicode/utf8"
 
 	"github.com/matrix-org/gomatrixserverlib/spec"
+	"github.com/tidwall/gjson"
 	"github.com/tidwall/sjson"
 	"golang.org/x/crypto/ed25519"
 )
@@ -38,6 +41,11 @@ func SignJSON(signingName string, keyID KeyID, privateKey ed25519.PrivateKey, me
 		Unsigned   spec.RawJSON                          `json:"unsigned"`
 	}{
 		Signatures: map[string]map[KeyID]spec.Base64Bytes{},
+	}
+	// Invalid UTF-8 is not refused here (VerifyJSON refuses it): signing must not fail on an event that the
+	// event constructors accepted.
+	if err = checkStrictJSON(message, false); err != nil {
+		return nil, err
 	}
 	// Read the two members by their exact names: decoding the message into the struct directly would also
 	// match case variants such as "Signatures", which are ordinary members of the object being signed.
@@ -92,6 +100,79 @@ func SignJSON(signingName string, keyID KeyID, privateKey ed25519.PrivateKey, me
 	return
 }
 
+// checkStrictJSON refuses JSON that the readers used for signing do not all understand the same way, so
+// that a signature covers exactly what every reader of the signed message sees:
+//   - of two object members with the same name encoding/json keeps the last, gjson and sjson the first;
+//   - CompactJSON drops the escape of a lone UTF-16 surrogate, the decoders read it as U+FFFD;
+//   - (requireUTF8) encoding/json rewrites invalid UTF-8 to U+FFFD, in member names even for
+//     json.RawMessage values.
+//
+// Such a message could be altered, or read differently by the next reader, without invalidating its
+// signatures. The check covers the whole message: a second "signatures" or "unsigned" member is as
+// ambiguous as any other, and CanonicalJSON rewrites the inside of "unsigned" as well.
+func checkStrictJSON(message []byte, requireUTF8 bool) error {
+	if !gjson.ValidBytes(message) {
+		return fmt.Errorf("gomatrixserverlib: invalid JSON")
+	}
+	return checkStrictValue(gjson.ParseBytes(message), requireUTF8)
+}
+
+func checkStrictValue(value gjson.Result, requireUTF8 bool) (err error) {
+	switch {
+	case value.Type == gjson.String:
+		return checkStrictString(value.Raw, requireUTF8)
+	case value.IsObject():
+		names := make(map[string]struct{})
+		value.ForEach(func(name, member gjson.Result) bool {
+			if err = checkStrictString(name.Raw, requireUTF8); err != nil {
+				return false
+			}
+			if _, duplicate := names[name.Str]; duplicate {
+				err = fmt.Errorf("gomatrixserverlib: duplicate object member %q", name.Str)
+				return false
+			}
+			names[name.Str] = struct{}{}
+			err = checkStrictValue(member, requireUTF8)
+			return err == nil
+		})
+	case value.IsArray():
+		value.ForEach(func(_, element gjson.Result) bool {
+			err = checkStrictValue(element, requireUTF8)
+			return err == nil
+		})
+	}
+	return err
+}
+
+// checkStrictString checks a JSON string in its raw (quoted, escaped) spelling, which gjson has
+// validated: every \u escape of a surrogate must be the first half of a proper pair
+// \uD800-\uDBFF \uDC00-\uDFFF, and (requireUTF8) the string must be valid UTF-8.
+func checkStrictString(raw string, requireUTF8 bool) error {
+	if requireUTF8 && !utf8.ValidString(raw) {
+		return fmt.Errorf("gomatrixserverlib: JSON string is not valid UTF-8")
+	}
+	for i := 0; i+1 < len(raw); i++ {
+		if raw[i] != '\\' {
+			continue
+		}
+		i++ // the escaped character
+		if raw[i] != 'u' || i+4 >= len(raw) {
+			continue
+		}
+		high := readHexDigits([]byte(raw[i+1 : i+5]))
+		i += 4
+		if !utf16.IsSurrogate(high) {
+			continue
+		}
+		if i+6 >= len(raw) || raw[i+1] != '\\' || raw[i+2] != 'u' ||
+			utf16.DecodeRune(high, readHexDigits([]byte(raw[i+3:i+7]))) == utf8.RuneError {
+			return fmt.Errorf("gomatrixserverlib: JSON string has an unpaired surrogate escape")
+		}
+		i += 6
+	}
+	return nil
+}
+
 // ListKeyIDs lists the key IDs a given entity has signed a message with.
 func ListKeyIDs(signingName string, message []byte) ([]KeyID, error) {
 	var members map[string]json.RawMessage
@@ -120,6 +201,9 @@ func VerifyJSON(signingName string, keyID KeyID, publicKey ed25519.PublicKey, me
 	// It also ensures that the JSON is actually a valid JSON object.
 	var object map[string]*json.RawMessage
 	var signatures map[string]map[KeyID]spec.Base64Bytes
+	if err := checkStrictJSON(message, true); err != nil {
+		return err
+	}
 	if err := json.Unmarshal(message, &object); err != nil {
 		return err
 	}
